@@ -75,19 +75,34 @@ class C10(Prop):
                 )
             if replies and draw(st.booleans()):
                 replies.append(list(draw(st.sampled_from(replies))))  # a duplicate at the same instant
+            sequential = n_in >= 2 and draw(st.integers(0, 3)) == 0
+            if sequential:
+                # every wait of a sequential case runs into its own timeout (nobody answers, the step carries on), so that a waiter id
+                # is only ever re-used after its previous timer has FIRED.  (Re-use after an ANSWERED timed wait is a known finding --
+                # the old timer is not cancelled and times out the new waiter -- kept as a fixed replay, not generated: its symptoms
+                # are too varied to attribute one by one.)
+                for x in inputs:
+                    x["fail_after"] = 0
+                    for w in x["waits"]:
+                        w["timeout"] = draw(st.sampled_from([3, 6]))
+                        w["on_timeout"] = "continue"
+                replies = []
             return {
                 "workers": draw(st.integers(1, 3)),
                 "retry_wait": draw(st.sampled_from([0, 0, 1])),
                 "inputs": inputs,
                 # derived (default) waiter ids: only where they are unique, i.e. one input whose waits differ in (type, requirement)
                 # (across ALL inputs: runs of one step share the waiter-id space; (type, requirements) is what the default id is made of)
-                "derived_ids": len({(w["type"], (w.get("rkey") or x["key"]) if w["req"] else None) for x in inputs for w in x["waits"]}) == sum(len(x["waits"]) for x in inputs)
+                "derived_ids": False if False else len({(w["type"], (w.get("rkey") or x["key"]) if w["req"] else None) for x in inputs for w in x["waits"]}) == sum(len(x["waits"]) for x in inputs)
                 and draw(st.integers(0, 2)) == 0,
                 "replies": sorted(replies),
-                "snap": draw(st.sampled_from([None, None, None, None, None, None, 0, 1, 2, 3, 4, 5, 7, 9])),
+                "snap": None if sequential else draw(st.sampled_from([None, None, None, None, None, None, 0, 1, 2, 3, 4, 5, 7, 9])),
                 "ties": draw(st.lists(st.integers(0, 7), max_size=8)),
                 # the resumed run is serialized again before its first loop turn and resumed from that second snapshot
                 "resnap": draw(st.sampled_from([False, False, True])),
+                # inputs handed to the waiting step one after the other (the next one only when the previous one completed), all using
+                # the SAME waiter ids per wait position: the re-prompt / multi-turn shape, where a waiter id is reused once it is free
+                "sequential": sequential,
             }
 
         return case()
@@ -99,8 +114,12 @@ class C10(Prop):
         WaitingForEvent = m["results"].WaitingForEvent
         inputs = case["inputs"]
 
+        sequential = bool(case.get("sequential"))
+
         async def start(self, ctx, ev):
             for i, inp in enumerate(inputs):
+                if sequential and i > 0:
+                    break
                 ctx.send_event(rec.mk("E1", "send", key=inp["key"], idx=i))
             return None
 
@@ -114,7 +133,7 @@ class C10(Prop):
                 if inp["pre"]:
                     await asyncio.sleep(inp["pre"])
                 for j, w in enumerate(inp["waits"]):
-                    wid = None if case["derived_ids"] else f"w-{i}-{j}"
+                    wid = f"w-{j}" if sequential else (None if case["derived_ids"] else f"w-{i}-{j}")
                     wrec = {"j": j, "wid": wid, "t": None, "res": None}
                     ent["waits"].append(wrec)
                     req = {"key": w.get("rkey") or inp["key"]} if w["req"] else None
@@ -152,6 +171,10 @@ class C10(Prop):
 
         async def after(self, ctx, ev):
             log["done"].append({"idx": ev.get("idx"), "t": VClock.t, "seg": rec.segment})
+            nxt = ev.get("idx") + 1
+            if sequential and nxt < len(inputs) and not any(d["idx"] == nxt for d in log.get("handed", [])):
+                log.setdefault("handed", []).append({"idx": nxt})
+                return rec.mk("E1", "ret", key=inputs[nxt]["key"], idx=nxt)
             return None
 
         async def fin(self, ctx, ev):
@@ -173,7 +196,7 @@ class C10(Prop):
                 if any(x.get("fail_after") for x in inputs)
                 else None,
             )(ann(waiter, "waiter", ge.E1, U[ge.E2, N])),
-            "after": step(ann(after, "after", ge.E2, U[ge.GStop, N])),
+            "after": step(ann(after, "after", ge.E2, U[ge.E1, ge.GStop, N])),
             "fin": step(ann(fin, "fin", ge.Fin, ge.GStop)),
         }
         cls = type("C10Wf", (Workflow,), members)
@@ -282,6 +305,9 @@ class C10(Prop):
                 # ---- timing clauses (uninterrupted runs only)
                 regs = [x["t"] for e, x in recs if x["res"] == "waiting"]
                 if not regs:
+                    if any(x["res"] == "timeout" for _e, x in recs) and w["timeout"]:
+                        # a TimeoutError without the wait ever having been registered (no suspension): no timeout period elapsed
+                        r.v("timeout_before_deadline", never_registered=True, sequential=bool(case.get("sequential")))
                     continue
                 reg = regs[0]
                 deadline = reg + w["timeout"] if w["timeout"] else None
@@ -297,13 +323,23 @@ class C10(Prop):
                 touts = [(e, x) for e, x in recs if x["res"] == "timeout"]
                 if touts:
                     timeouts_fired += 1
+                    t_to = min(x["t"] for _, x in touts)
+                    # does this timeout coincide with the deadline of an EARLIER wait that used the same waiter id (sequential inputs
+                    # re-using ids)?  That wait's timer is not cancelled when it is answered and is keyed by the id alone.
+                    stale = False
+                    if case.get("sequential"):
+                        for i2, inp2 in enumerate(case["inputs"][:i]):
+                            if j < len(inp2["waits"]) and inp2["waits"][j]["timeout"]:
+                                regs2 = [x2["t"] for e2 in log["entries"] if e2["idx"] == i2 for x2 in e2["waits"] if x2["j"] == j and x2["res"] == "waiting"]
+                                if regs2 and abs(regs2[0] + inp2["waits"][j]["timeout"] - t_to) < 1e-6:
+                                    stale = True
                     if deadline is None:
-                        r.v("timeout_without_timeout")
+                        r.v("timeout_without_timeout", stale_timer_of_earlier_wait_with_same_id=stale)
                     else:
                         if strictly_in:
-                            r.v("timeout_although_matching_event_arrived_in_time")
-                        if min(x["t"] for _, x in touts) < deadline - 1e-9:
-                            r.v("timeout_before_deadline")
+                            r.v("timeout_although_matching_event_arrived_in_time", stale_timer_of_earlier_wait_with_same_id=stale)
+                        if t_to < deadline - 1e-9:
+                            r.v("timeout_before_deadline", stale_timer_of_earlier_wait_with_same_id=stale)
                         if gots:
                             r.v("wait_both_timed_out_and_returned")
                 if gots:
@@ -354,6 +390,8 @@ class C10(Prop):
             r.classes.append("resume_with_pending_waiter")
         if any(len(i["waits"]) > 1 for i in case["inputs"]):
             r.classes.append("two_waits")
+        if case.get("sequential"):
+            r.classes.append("sequential_inputs_reusing_waiter_ids")
         if case["derived_ids"]:
             r.classes.append("default_waiter_ids")
             allw = [(w["type"], w.get("rkey") or x["key"]) for x in case["inputs"] for w in x["waits"] if w["req"]]
